@@ -161,6 +161,7 @@ def showDivert : Option Divert → String
   | some (.exit st) => s!"exit{st.getD (-1)}"
   | some (.interrupt st) => s!"int{st.getD (-1)}"
   | some .other => "other"
+  | some (.abort st) => s!"abort{st.getD (-1)}"
 
 /-- what `poll_signals` collects after `sig` was sent: the signal, if `Catch` is installed -/
 def polledBy (st : State) (sig : Nat) : List Nat :=
